@@ -142,6 +142,8 @@ type Exec struct {
 	axiomText    map[string]string
 	knownLen     map[string]int
 	callOrd      map[*ast.CallExpr]string
+	inlOrd       map[*ast.BlockStmt]map[*ast.CallExpr]string // call ordinals of inlined helpers (moved call sites)
+	movedNoted   map[string]bool
 	effRecvType  types.Type
 	effSubst     map[*types.TypeParam]types.Type
 	relSnap      map[string]*State
